@@ -245,10 +245,15 @@ def _case(repo, it, S, layout, sn):
             if k3 == "ok":
                 consistent(d3, f"sequence[{a}:{b}].reverse_complement()", f_rc)
     # integer index
-    n += 1
-    k, d = run(it, f_get, [0], {}, s)
-    if k == "ok":
-        consistent(d, "sequence[0]", f_get)
+    for i in range(-L, L):
+        n += 1
+        k, d = run(it, f_get, [i], {}, s)
+        if k != "ok":
+            out.append(("integer index", f"{desc}: sequence[{i}] raises {d}; a valid index of a located sequence of length {L}", f_get.qual))
+            continue
+        if d.fields["sequence"] != want[i]:
+            out.append(("integer index", f"{desc}: sequence[{i}] = {d.fields['sequence']!r}; expected {want[i]!r}", f_get.qual))
+        consistent(d, f"sequence[{i}]", f_get)
     # append of adjacent slices
     for cut in range(1, L):
         k1, d1 = run(it, f_get, [slice(0, cut)], {}, s)
